@@ -38,6 +38,9 @@ open Generated
 inductive Err
   | valueError
   | zeroDivisionError
+  /-- only the value-level model (`getStringWidthV`) raises it: an unhashable font / unit, a size that cannot be
+  compared with 0, a text Pillow cannot take the length of, a dpi that cannot divide a float -/
+  | typeError
   deriving DecidableEq, Repr
 
 /-! ## fixed-point primitives (FreeType `ftcalc.c`, HarfBuzz `hb-font.hh`, `hb-ft.cc`) -/
@@ -251,6 +254,285 @@ def getStringWidth (measure : String → Rat → List Char → Rat)
   else
     let px := measure path size text            -- measured before the unit is looked at
     convert unit dpi px
+
+/-! ## `get_string_width` over Python *values*  (argument validation for every value class)
+
+The function is annotated `font: FontName | FontNumber`, `unit: Unit`, but nothing checks the annotations: any
+Python object can arrive in any argument.  `Val` is the small value type over which the statement's last clause
+("unsupported fonts or units raise ValueError") is stated for **every** value class, not only for unsupported
+strings and out-of-range ints.  What the code does with a value, stage by stage (unchanged tree):
+
+```
+isinstance(font, int)            int, bool (True == 1)        → RTF_FONT_NAMES lookup, ValueError if absent
+                                 anything else (numpy ints!)  → the value itself is the key
+key not in _FONT_PATHS           unhashable key               → TypeError (hash)         -- not a ValueError
+                                 str (also numpy.str_) in it  → path
+                                 anything else                → ValueError
+ImageFont.truetype(size=…)       `size <= 0` not comparable   → TypeError
+                                 size <= 0                    → ValueError
+                                 nan, +inf, < 0.5, > 1000 …   → FreeType (OSError or a width): not modelled
+font.getlength(text)             str → measure; bytes → Pillow measures them (not modelled); else TypeError
+unit not in conversions          unhashable → TypeError; str in {px,in,mm} → conversion; else ValueError
+conversions[unit](px)            px: dpi never looked at;  in/mm: `px / dpi` — Python number 0 → ZeroDivisionError,
+                                 numpy zero → inf + warning (not modelled), non-number → TypeError
+```
+-/
+
+/-- a Python value as a caller can pass it in any of the five arguments -/
+inductive Val
+  /-- `None` -/
+  | null
+  | bool (b : Bool)
+  | int (i : Int)
+  /-- a finite `float`, exact value -/
+  | float (q : Rat)
+  | nan
+  | inf (neg : Bool)
+  | str (s : String)
+  | bytes
+  /-- a tuple is hashable iff all its elements are -/
+  | tuple (hashable : Bool)
+  /-- `list`, `dict`, `set`: unhashable builtin containers -/
+  | list
+  /-- `numpy.ndarray` (unhashable; arithmetic broadcasts) -/
+  | ndarray
+  /-- numpy integer scalar: **not** an `int` instance, hashes and compares like the int -/
+  | npInt (i : Int)
+  /-- numpy floating scalar (finite) -/
+  | npFloat (q : Rat)
+  | npBool (b : Bool)
+  /-- `numpy.str_`: a `str` subclass, hashes and compares like the `str` -/
+  | npStr (s : String)
+  /-- any other hashable object that equals no number and no string (`complex` with an imaginary part,
+  `frozenset`, a class, …) -/
+  | other
+  deriving DecidableEq, Repr
+
+/-- a computation stage of the value-level model -/
+inductive Stage (α : Type)
+  | ok (a : α)
+  | raises (e : Err)
+  /-- the call reaches Pillow / FreeType / numpy with a value whose handling this model does not describe -/
+  | unmodelled
+  deriving Repr
+
+def Stage.bind {α β : Type} (x : Stage α) (f : α → Stage β) : Stage β :=
+  match x with
+  | .ok a => f a
+  | .raises e => .raises e
+  | .unmodelled => .unmodelled
+
+def Stage.ofExcept {α : Type} : Except Err α → Stage α
+  | .ok a => .ok a
+  | .error e => .raises e
+
+def Val.hashable : Val → Bool
+  | .tuple h => h
+  | .list => false
+  | .ndarray => false
+  | _ => true
+
+/-- `isinstance(v, int)` and the int it is -/
+def Val.pyInt? : Val → Option Int
+  | .int i => some i
+  | .bool b => some (if b then 1 else 0)
+  | _ => Option.none
+
+/-- the (finite) number arithmetic and `==` see in a value, and whether it is a numpy scalar -/
+def Val.num? : Val → Option (Rat × Bool)
+  | .bool b => some (if b then 1 else 0, false)
+  | .int i => some (i, false)
+  | .float q => some (q, false)
+  | .npInt i => some (i, true)
+  | .npFloat q => some (q, true)
+  | .npBool b => some (if b then 1 else 0, true)
+  | _ => Option.none
+
+/-- the `str` a value is (`str` or a subclass) -/
+def Val.str? : Val → Option String
+  | .str s => some s
+  | .npStr s => some s
+  | _ => Option.none
+
+/-- `key in d` / `d[key]` for a dict `d` whose keys are all `str` -/
+def strKeyLookup {β : Type} (table : List (String × β)) (key : Val) : Except Err (Option β) :=
+  if key.hashable then
+    match key.str? with
+    | some s => .ok (table.lookup s)
+    | none => .ok none
+  else .error .typeError
+
+/-- the key looked up in `_FONT_PATHS` -/
+def fontKeyV (font : Val) : Except Err Val :=
+  match font.pyInt? with
+  | some n =>
+    match fontName (.num n) with
+    | .ok nm => .ok (.str nm)
+    | .error e => .error e
+  | none => .ok font
+
+def fontPathV (font : Val) : Except Err String :=
+  match fontKeyV font with
+  | .error e => .error e
+  | .ok key =>
+    match strKeyLookup fontPaths key with
+    | .error e => .error e
+    | .ok (some p) => .ok p
+    | .ok none => .error .valueError
+
+/-- sizes FreeType is known to accept (measured: 0.5 … 40000 work, below 0.5 "invalid ppem value") -/
+def pillowSize (q : Rat) : Bool := decide (1 / 2 ≤ q) && decide (q ≤ 1000)
+
+/-- `ImageFont.truetype(path, size=size)` -/
+def sizeStage (size : Val) : Stage Rat :=
+  match size with
+  | .nan => .unmodelled
+  | .inf neg => if neg then .raises .valueError else .unmodelled
+  | .ndarray => .unmodelled
+  | v =>
+    match v.num? with
+    | some (q, _) =>
+      if q ≤ 0 then .raises .valueError        -- "font size must be greater than 0"
+      else if pillowSize q then .ok q else .unmodelled
+    | none => .raises .typeError                -- `size <= 0`
+
+/-- `font_obj.getlength(text)` -/
+def textStage (text : Val) : Stage (List Char) :=
+  match text with
+  | .str s => .ok s.toList
+  | .npStr s => .ok s.toList
+  | .bytes => .unmodelled
+  | _ => .raises .typeError
+
+/-- magnitudes for which float division neither overflows nor underflows on the widths in question -/
+def floatRange (q : Rat) : Bool := decide (1 / 2 ^ 900 ≤ rabs' q) && decide (rabs' q ≤ 2 ^ 900)
+  where rabs' (x : Rat) : Rat := if x < 0 then -x else x
+
+/-- the divisor of `x / dpi` -/
+def dpiStage (dpi : Val) : Stage Rat :=
+  match dpi with
+  | .nan => .unmodelled
+  | .inf _ => .unmodelled
+  | .ndarray => .unmodelled
+  | .other => .unmodelled                       -- complex divides, frozenset does not
+  | v =>
+    match v.num? with
+    | some (q, np) =>
+      if q = 0 then (if np then .unmodelled else .raises .zeroDivisionError)
+      else if floatRange q then .ok q else .unmodelled
+    | none => .raises .typeError
+
+/-- `if unit not in conversions: raise ValueError` … `conversions[unit](width_px)` -/
+def convertV (unit dpi : Val) (px : Rat) : Stage Rat :=
+  if unit.hashable then
+    match unit.str? with
+    | some u =>
+      if u = "px" then .ok px                   -- dpi is never looked at
+      else if u = "in" ∨ u = "mm" then (dpiStage dpi).bind fun d => .ofExcept (convert u d px)
+      else .raises .valueError
+    | none => .raises .valueError
+  else .raises .typeError
+
+/-- the whole function over values -/
+def getStringWidthV (measure : String → Rat → List Char → Rat) (text font size unit dpi : Val) : Stage Rat :=
+  match fontPathV font with
+  | .error e => .raises e
+  | .ok path =>
+    (sizeStage size).bind fun q =>
+    (textStage text).bind fun t =>
+    convertV unit dpi (measure path q t)
+
+/-! ### what the statement says about a value (specification level; does not look at the model above) -/
+
+/-- the ten RTF fonts as the property documents them ("all 10 fonts by number and by name") -/
+def specFontNames : List String :=
+  ["Times New Roman", "Times New Roman Greek", "Arial Greek", "Arial", "Helvetica", "Calibri", "Georgia", "Cambria",
+   "Courier New", "Symbol"]
+
+def specUnits : List String := ["in", "mm", "px"]
+
+/-- how the statement's last clause reads an argument value -/
+inductive ArgClass
+  /-- one of the documented values, in its documented type: must be accepted -/
+  | supported
+  /-- another type whose value *equals* a documented one (`True == 1`, `4.0 == 4`, `numpy.int64(4)`,
+  `numpy.str_("Arial")`): the statement does not say which side it falls on — accepted (a width) or refused
+  (then with `ValueError`), nothing else -/
+  | lenient
+  /-- equals no documented value: must be refused with `ValueError`, whatever its type -/
+  | unsupported
+  /-- unhashable values (list, dict, set, ndarray, tuples containing them): they raised `TypeError` from the
+  dictionary lookup before any change; recorded, not judged -/
+  | free
+  deriving DecidableEq, Repr
+
+def isFontNumber (q : Rat) : Bool := (List.range 10).any fun k => q == ((k + 1 : Nat) : Rat)
+
+def fontClass (v : Val) : ArgClass :=
+  if v.hashable then
+    match v with
+    | .int i => if 1 ≤ i ∧ i ≤ 10 then .supported else .unsupported
+    | .str s => if specFontNames.contains s then .supported else .unsupported
+    | .npStr s => if specFontNames.contains s then .lenient else .unsupported
+    | v =>
+      match v.num? with
+      | some (q, _) => if isFontNumber q then .lenient else .unsupported
+      | none => .unsupported
+  else .free
+
+def unitClass (v : Val) : ArgClass :=
+  if v.hashable then
+    match v with
+    | .str s => if specUnits.contains s then .supported else .unsupported
+    | .npStr s => if specUnits.contains s then .lenient else .unsupported
+    | _ => .unsupported
+  else .free
+
+/-- the other three arguments inside the statement's quantifier: a `str` text, a size in 4..48 and a dpi in
+36..600 given as any real-number type (int, float, numpy integer / floating scalar) -/
+def textInDomain : Val → Bool
+  | .str _ => true
+  | _ => false
+
+def numIn (lo hi : Rat) : Val → Bool
+  | .int i => decide (lo ≤ (i : Rat)) && decide ((i : Rat) ≤ hi)
+  | .float q => decide (lo ≤ q) && decide (q ≤ hi)
+  | .npInt i => decide (lo ≤ (i : Rat)) && decide ((i : Rat) ≤ hi)
+  | .npFloat q => decide (lo ≤ q) && decide (q ≤ hi)
+  | _ => false
+
+def sizeInDomain (v : Val) : Bool := numIn 4 48 v
+def dpiInDomain (v : Val) : Bool := numIn 36 600 v
+
+/-- what the statement demands of one call -/
+inductive Expect
+  | valueError
+  | width
+  /-- a width or a `ValueError` (a lenient value decides which) -/
+  | either
+  /-- the statement does not speak about this call -/
+  | free
+  deriving DecidableEq, Repr
+
+def expected (text font size unit dpi : Val) : Expect :=
+  if textInDomain text && sizeInDomain size && dpiInDomain dpi then
+    match fontClass font, unitClass unit with
+    | .free, _ => .free
+    | _, .free => .free
+    | .unsupported, _ => .valueError
+    | _, .unsupported => .valueError
+    | .supported, .supported => .width
+    | _, _ => .either
+  else .free
+
+/-- does an outcome meet the demand -/
+def meets : Expect → Stage Rat → Bool
+  | .free, _ => true
+  | .valueError, .raises .valueError => true
+  | .width, .ok _ => true
+  | .either, .ok _ => true
+  | .either, .raises .valueError => true
+  | _, _ => false
 
 /-- the measure of this installation for the fonts L2 covers (0 elsewhere: not modelled at L2) -/
 def measureModel (path : String) (size : Rat) (t : List Char) : Rat :=
